@@ -205,7 +205,7 @@ def _check_fn(args):
     q = rng.choice(["", "", ".onmatch", ".nm", ".notnone.once"])
     comp = f"{name}{q}({', '.join(shape)})"
     wrap = rng.choice(["{c}", "{c}", "not({c})", "#z -> {c}", "@r = {c}"])
-    if name in ("import",):
+    if name in ("import", "not"):
         wrap = "{c}"
     ctext = wrap.format(c=comp)
     text = f"$f.csv[*][ {ctext} ]"
